@@ -3,10 +3,11 @@
 (* the real source tree against spec/DocGen.tla.                              *)
 (*                                                                          *)
 (* The trace file (JSON, written by harness/c19.py) holds                    *)
-(*   events   the ordered stream recorded while generate_laws_docs ran:      *)
-(*            begin(module shape, titled) / flag(action, value) /            *)
-(*            stmt(statement index, flag seen by that statement) /           *)
-(*            end(page written) / finish(final flag, default-mode results)   *)
+(*   mods     per module the ordered events recorded while generate_laws_docs *)
+(*            ran: begin(module shape, titled, flag at entry) /              *)
+(*            flag(action, value) / stmt(statement index, flag seen by that  *)
+(*            statement) / end(page written, flag at exit); the last record  *)
+(*            holds finish(final flag, default-mode results)                 *)
 (*   tree     the source tree in the vocabulary of the walk layer            *)
 (*            (parent, kind per node; node 0 = root; ids descend with the    *)
 (*            sorted path so that DocGen!Key orders siblings by name)        *)
@@ -22,24 +23,26 @@
 EXTENDS DocGen, IOUtils
 
 Trace == JsonDeserialize(IOEnv.TRACE_FILE)
-Ev == Trace.events
+Mods == Trace.mods                 \* one record per module: [path, ev]; the last one holds the finish event only
 TMaxNodes == Len(Trace.tree)
 
-VARIABLE l
+VARIABLES t, l                     \* module index, position in that module's event list
 
-tvars == <<l, mod, phase, flag, log>>
+Ev == Mods[t].ev
 
-TInit == /\ l = 1 /\ mod = <<>> /\ phase = "idle" /\ flag = TRUE /\ log = <<>> /\ pc = 1
+\* one initial state per module: every module is validated on its own, so every deviating module is reported
+TInit == /\ t \in 1..Len(Mods) /\ l = 1
+         /\ mod = <<>> /\ phase = "idle" /\ flag = TRUE /\ log = <<>> /\ pc = 1
          /\ tree = Trace.tree /\ rootk = Trace.rootk
          /\ wphase = "off" /\ todo = {} /\ cur = -1 /\ pend = {} /\ written = <<>> /\ toc = <<>> /\ wflag = TRUE
 
-Frozen == UNCHANGED <<pc, tree, rootk, wphase, todo, cur, pend, written, toc, wflag>>
+Frozen == UNCHANGED <<t, pc, tree, rootk, wphase, todo, cur, pend, written, toc, wflag>>
 
 IsEvent(e) == l <= Len(Ev) /\ Ev[l].ev = e /\ l' = l + 1
 
-\* a module is entered in the default mode only
-TBegin == /\ IsEvent("begin") /\ phase = "idle" /\ flag = TRUE
-          /\ mod' = Ev[l].shape /\ phase' = "inmod" /\ log' = <<>> /\ UNCHANGED flag /\ Frozen
+\* a module is entered in the default mode only (the flag observed at entry is recorded)
+TBegin == /\ IsEvent("begin") /\ phase = "idle" /\ Ev[l].flag = TRUE
+          /\ mod' = Ev[l].shape /\ phase' = "inmod" /\ log' = <<>> /\ flag' = TRUE /\ Frozen
 
 \* `disable` switches evaluation off; `reset` / `enable` give the default mode back
 TFlag == /\ IsEvent("flag") /\ phase = "inmod"
@@ -56,10 +59,10 @@ TStmt == /\ IsEvent("stmt") /\ phase = "inmod"
          /\ log' = Append(log, <<Ev[l].i, flag>>) /\ UNCHANGED <<mod, phase, flag>> /\ Frozen
 
 \* a module is left in the default mode; a page iff it is documented; every documented member was executed
-TEnd == /\ IsEvent("end") /\ phase = "inmod" /\ flag = TRUE
+TEnd == /\ IsEvent("end") /\ phase = "inmod" /\ flag = TRUE /\ Ev[l].flag = TRUE
         /\ Ev[l].page = Ev[l].titled
         /\ (Ev[l].page => \A i \in 1..LastRequired(mod) : Observable(mod, i) => \E n \in 1..Len(log) : log[n][1] = i)
-        /\ phase' = "idle" /\ UNCHANGED <<mod, flag, log>> /\ Frozen
+        /\ phase' = "closed" /\ UNCHANGED <<mod, flag, log>> /\ Frozen
 
 \* after the last module: default mode, and a fixed SymPy computation gives the default-mode results
 TFinish == /\ IsEvent("finish") /\ phase = "idle" /\ flag = TRUE
@@ -68,12 +71,13 @@ TFinish == /\ IsEvent("finish") /\ phase = "idle" /\ flag = TRUE
 
 TNext == TBegin \/ TFlag \/ TStmt \/ TEnd \/ TFinish
 
-\* total verdict: either the whole trace is accepted, or the first event no action allows is reported
-Accepted == (l = Len(Ev) + 1 /\ phase = "finished") => PrintT(<<"ACCEPT", l - 1>>)
-Stuck == (l <= Len(Ev) /\ ~ENABLED TNext) => PrintT(<<"STUCK", l, Ev[l].ev>>)
-Unfinished == (l = Len(Ev) + 1 /\ phase # "finished") => PrintT(<<"STUCK", l, "no finish event">>)
+\* total verdicts: a module's trace is accepted, or the first event no action allows is reported
+Complete == l = Len(Ev) + 1 /\ phase \in {"closed", "finished"}
+Accepted == Complete => PrintT(<<"ACCEPT", t>>)
+Stuck == (l <= Len(Ev) /\ ~ENABLED TNext) => PrintT(<<"STUCK", t, l>>)
+Unfinished == (l = Len(Ev) + 1 /\ ~Complete) => PrintT(<<"STUCK", t, l>>)
 
-FlagDefaultBetweenModules == phase \in {"idle", "finished"} => flag = TRUE
+FlagDefaultBetweenModules == phase \in {"idle", "closed", "finished"} => flag = TRUE
 
 -----------------------------------------------------------------------------
 (* page set and toctrees of the real tree against the walk layer (evaluated once, in the initial state) *)
@@ -83,15 +87,15 @@ Produced == Range(Trace.produced)
 IsSortedByKey(s) == \A i, j \in 1..Len(s) : i < j => Key(s[i]) < Key(s[j])
 
 TocBad == {i \in 1..Len(Trace.toc) :
-             LET t == Trace.toc[i] IN
-               ~ /\ IsDirK(Kind(t.d)) /\ HasPage(t.d)
-                 /\ t.lw = SortByKey(LawsOf(t.d))
-                 /\ MustList(t.d) \subseteq Range(t.pk)
-                 /\ Range(t.pk) \subseteq MayList(t.d)
-                 /\ IsSortedByKey(t.pk)
-                 /\ t.unknown = 0}
+             LET te == Trace.toc[i] IN
+               ~ /\ IsDirK(Kind(te.d)) /\ HasPage(te.d)
+                 /\ te.lw = SortByKey(LawsOf(te.d))
+                 /\ MustList(te.d) \subseteq Range(te.pk)
+                 /\ Range(te.pk) \subseteq MayList(te.d)
+                 /\ IsSortedByKey(te.pk)
+                 /\ te.unknown = 0}
 
-TreeReport == l = 1 =>
+TreeReport == (t = 1 /\ l = 1) =>
    PrintT(ToJson([kind |-> "tree",
                   nodes |-> Len(tree),
                   expected |-> Cardinality(ExpectedPages),
